@@ -536,6 +536,7 @@ func cmdCheck(args []string) int {
 			"obligations": r.Obligations, "discharged_unsat": r.Discharged - r.ConcreteOK, "discharged_concrete": r.ConcreteOK,
 			"violating_models_by_label": labels, "reach_witnesses": r.Reached, "stated_bounds_that_cut": r.BoundsHit,
 			"solver_queries": r.SolverQ, "solver_time_s": round3(r.SolverTime.Seconds()), "max_query_s": round3(r.MaxQuery.Seconds()),
+			"second_opinion_queries": r.FallbackQ, "second_opinion_decided": r.FallbackDec,
 			"solver_unknown": r.UnknownFeas, "instructions": r.Steps, "wall_s": round3(r.Wall.Seconds()), "params": eo.Cfg.Params,
 			"truncated": r.Truncated,
 		})
@@ -561,7 +562,7 @@ func cmdCheck(args []string) int {
 	cov["functions_encoded"] = fl
 	cov["stubs"] = spec.Stubs
 	cov["bounds"] = spec.Bounds
-	cov["solver"] = "z3 4.8.12 (incremental, one process per worker)"
+	cov["solver"] = "z3 4.8.12 (incremental, one process per worker); cvc5 1.0.3 one-shot as second opinion on queries z3 leaves unknown"
 	cov["solver_queries"] = sq
 	cov["solver_time_s"] = round3(st.Seconds())
 	cov["max_query_s"] = round3(mq.Seconds())
